@@ -18,14 +18,14 @@ import (
 )
 
 type racGen struct {
-	w     *World
-	pkg   *ssa.Package
-	kinds map[string]string // variable -> int|bool|string|bytes|error|other
-	types map[string]types.Type
+	w        *World
+	pkg      *ssa.Package
+	kinds    map[string]string // variable -> int|bool|string|bytes|error|other
+	types    map[string]types.Type
 	execMemo map[string]bool
-	funcs map[string]bool   // spec functions needed
-	out   strings.Builder
-	fail  string
+	funcs    map[string]bool // spec functions needed
+	out      strings.Builder
+	fail     string
 }
 
 func kindOfType(t types.Type) string {
